@@ -49,6 +49,22 @@ pub fn run<S: Strategy>(
 where
     S::Value: Clone + std::fmt::Debug,
 {
+    run2(seed, cases, strat, |v| on_case(v), |_, _: &Result<(), String>| {}, test)
+}
+
+/// Like `run`, but the test returns a payload (e.g. statistics) that is handed
+/// to `after` for every generated case (never for shrinking re-runs).
+pub fn run2<S: Strategy, T>(
+    seed: u64,
+    cases: u32,
+    strat: &S,
+    mut on_case: impl FnMut(&S::Value),
+    mut after: impl FnMut(&S::Value, &Result<T, String>),
+    test: impl Fn(&S::Value) -> Result<T, String>,
+) -> PtOutcome<S::Value>
+where
+    S::Value: Clone + std::fmt::Debug,
+{
     // We drive generation ourselves so that counting stops at the first
     // failure and shrinking re-runs do not touch the counters.
     let mut r = runner(seed, cases);
@@ -61,13 +77,19 @@ where
         let v = tree.current();
         on_case(&v);
         n += 1;
-        if let Err(msg) = test(&v) {
+        let res = test(&v);
+        after(&v, &res);
+        if let Err(msg) = res {
             // shrink
-            let (min, mmsg) = shrink(tree, &test, msg);
+            let (min, mmsg) = shrink(tree, &|v| test(v).map(|_| ()), msg);
             return PtOutcome { cases: n, failure: Some((min, mmsg)) };
         }
     }
     PtOutcome { cases: n, failure: None }
+}
+
+fn cat(m: &str) -> &str {
+    m.split(':').next().unwrap_or("")
 }
 
 fn shrink<T: ValueTree>(mut tree: T, test: &impl Fn(&T::Value) -> Result<(), String>, first_msg: String) -> (T::Value, String)
@@ -88,6 +110,12 @@ where
         }
         let v = tree.current();
         match test(&v) {
+            Err(m) if cat(&m) != cat(&best_msg) => {
+                // a different failure: do not follow it
+                if !tree.complicate() {
+                    break;
+                }
+            }
             Err(m) => {
                 best = v;
                 best_msg = m;
